@@ -27,7 +27,7 @@ def run(ctx, args):
             walks.append({"fam": FAMS[f], "ops": [e["o"] for e in w]})
     ctx.log("walks: %d covering %d edges" % (len(walks), n_edges))
     cases = os.path.join(ctx.scratch, "cases.json")
-    hist = 300 if quick else 6000
+    hist = 500 if quick else 8000
     with open(cases, "w") as fh:
         json.dump({"walks": walks, "histories": hist}, fh)
     trace = os.path.join(ctx.scratch, "trace.ndjson")
